@@ -25,6 +25,8 @@ PRIORS.append(('battery-other-box-swarm-gsa-const', '7', [
     {'cls': 'PSO', 'mod': 'pso', 'box': [2.0, 9.0], 'n_agents': 4, 'n_iter': 3}, {'cls': 'AIWPSO', 'mod': 'aiwpso', 'n_agents': 3, 'n_iter': 2},
     {'cls': 'GSA', 'mod': 'gsa', 'objective': 'const', 'n_agents': 3, 'n_iter': 2}, {'cls': 'HS', 'mod': 'hs', 'kind': 'hyper', 'box': [-10.0, 10.0], 'n_iter': 3},
     {'cls': 'PSO', 'mod': 'pso', 'n_vars': 3, 'box': [0.5, 0.75]}, {'cls': 'PSO', 'mod': 'pso', 'n_vars': 1, 'box': [100.0, 101.0]}]))
+# direct use of the library's random / distribution / selection primitives before the task (scalar requests, odd counts)
+PRIORS.append(('primitive-calls', '5', [{'cls': '__primitives__'}]))
 CHILD = os.path.join(os.path.dirname(os.path.abspath(__file__)), 'c05_child.py')
 
 
